@@ -1544,6 +1544,12 @@ class _Simu(_IObserver, _params.Updatable, ABC):
     ) -> None:
         self.__Set_u_n(problemType, u)
 
+        if self.isNonLinear and problemType == self.problemType:
+            # the tangent matrix and the residual are functions of the state: the assembled
+            # system (e.g. of the iteration left by Set_Iter) belongs to another state
+            self.__Solver_Set_Newton_Raphson_current_solution(np.array(u, copy=True))
+            self.Need_Update()
+
         if isinstance(v, np.ndarray):
             self.__Set_v_n(problemType, v)
 
